@@ -312,6 +312,11 @@ pub fn cycle_specs() -> Vec<(String, Value)> {
         mk("mutual-through-macro", vec![("main", "[1, 2].map(e, a)"), ("a", "[3].filter(e, main)")]),
         mk("mutual-through-call-and-macro", vec![("main", "size(a)"), ("a", "[1].map(e, dyn(main))")]),
         mk("wide-macro-cycle", vec![("main", "[1,2,3,4,5,6,7,8].map(e, main)")]),
+        // several macro bodies between two references: each body is an interpreter frame of its own
+        mk("self-in-2-nested-macro-bodies", vec![("main", "[1].map(x, [1].map(y, main))")]),
+        mk("self-in-4-nested-macro-bodies", vec![("main", "[1].map(a, [1].filter(b, [1].all(c, [1].exists(d, main))))")]),
+        mk("self-in-8-nested-macro-bodies", vec![("main", "[1].map(a, [1].map(b, [1].map(c, [1].map(d, [1].map(e, [1].map(f, [1].map(g, [1].map(h, main))))))))")]),
+        mk("mutual-through-nested-macro-bodies", vec![("main", "[1].map(x, [1].reduce(acc, y, a, 0))"), ("a", "[1].exists_one(x, [1].filter(y, main))")]),
     ]
 }
 
@@ -544,7 +549,7 @@ fn run(opts: &Opts, acc: &mut Acc) {
                 a.fail(f);
             }
         });
-        acc.mark_exhaustive("isolated", "40 ladder constructs x depth list x {8 MiB main stack, 2 MiB thread} x {release, dbg, unoptimised}; 27 cyclic reference shapes");
+        acc.mark_exhaustive("isolated", "40 ladder constructs x depth list x {8 MiB main stack, 2 MiB thread} x {release, dbg, unoptimised}; 31 cyclic reference shapes");
     }
 }
 
